@@ -75,6 +75,8 @@ def n_runs(tier):
 # ------------------------------------------------------------------ history generation (abstract state machine)
 def _gen_ops(rng, n_ops, n_prim, world_has_nac, fault_mode, tier):
     ops = []
+    planned = {}
+    prev_ds_kind = None
     st = dict(fc=None, ds=None, forces=False, copy=False)  # abstract state of the current target
     other = dict(fc=None, ds=None, forces=False, copy=True)
     prev = "start"
@@ -139,7 +141,7 @@ def _gen_ops(rng, n_ops, n_prim, world_has_nac, fault_mode, tier):
         elif kind == "cutoff":
             op.update(radius=rng.choice([2.5, 3.5, 4.5, 6.0]))
         elif kind == "set_nac":
-            op.update(method=rng.choice([None, "gonze", "wang", "default"]), zscale=rng.choice([1.0, 0.7, 1.4]), with_factor=rng.random() < 0.7)
+            op.update(method=rng.choice([None, "gonze", "wang", "default"]), zscale=rng.choice([1.0, 0.7, 1.4]), with_factor=rng.random() < 0.92)
         elif kind == "set_masses":
             op.update(factors=[rng.choice([1.0, 1.1, 2.0, 0.5]) for _ in range(n_prim)])
         elif kind == "gen_disp":
@@ -152,7 +154,15 @@ def _gen_ops(rng, n_ops, n_prim, world_has_nac, fault_mode, tier):
             op.update(fscale=rng.choice([1.0, 1.3, 0.8]), energies=rng.random() < 0.4)
             st["forces"] = True
         elif kind == "set_dataset":
-            op.update(kind=rng.choice([1, 2, None]), with_forces=rng.random() < 0.6, fscale=rng.choice([1.0, 1.3]))
+            op.update(kind=rng.choice([1, 2, 2, None]), with_forces=rng.random() < 0.6, fscale=rng.choice([1.0, 1.3]))
+            if planned.get(i) == "lesser":
+                # replace a dataset by one that carries LESS (same type, no forces / no energies): left-overs of the old one
+                # must not survive
+                op.update(kind=prev_ds_kind or 2, with_forces=False)
+            prev_ds_kind = op["kind"]
+            if op["kind"] is not None and op["with_forces"] and i + 2 < n_ops and seq[i + 1] is None and rng.random() < 0.5:
+                seq[i + 1], seq[i + 2] = "query", rng.choice(["set_dataset", "set_dataset", "gen_disp_random", "gen_disp"])
+                planned[i + 2] = "lesser"
             st["ds"] = op["kind"]
             st["forces"] = bool(op["with_forces"]) and op["kind"] is not None
         elif kind == "copy":
